@@ -403,6 +403,28 @@ pub async fn scenario() {
 		// wire-level part of the oracle while the connection is still up
 		model = check_streams_and_wire(&wire, &subs.lock().unwrap(), &pushes.lock().unwrap(), buf, max_conc, still_connected, false, conn_end_stamp);
 	}
+	// a notification handler that was removed for lagging and whose method is registered again: the old, ended handle
+	// is dropped only afterwards and must not take the new handler with it
+	if with_handler && still_connected && handler_rec.lock().unwrap().1.is_some() {
+		let r: Result<Subscription<Value>, Error> = client.subscribe_to_method("mn").await;
+		if let Ok(mut h2) = r {
+			rt::probe("handler_successor");
+			if let Some(ht) = handler_task.take() {
+				if let Ok(Ok(old)) = tokio::time::timeout(Duration::from_secs(5), ht).await {
+					rt::event("stale-handler-handle-dropped", "");
+					drop(old);
+				}
+			}
+			rt::yield_n(rt::draw("after_stale_handler_drop", 4)).await;
+			tokio::time::sleep(Duration::from_millis(20)).await;
+			wire.push_text(method_notif("mn", Some(&json!(424_242))));
+			match tokio::time::timeout(Duration::from_secs(1), h2.next()).await {
+				Ok(Some(Ok(v))) if v == json!(424_242) => {}
+				other => rt::violate(P, "handler-contents", "successor-of-a-lagged-handler", format!("a handler registered for `mn` after the previous one had been removed for lagging did not receive the next `mn` notification (got {other:?}) once the old handle had been dropped")),
+			}
+			drop(h2);
+		}
+	}
 	drop(client);
 	let mut keep = Vec::new();
 	for h in hs {
